@@ -125,11 +125,19 @@ func run(o *options) int {
 	prog, _ := ssautil.AllPackages(pkgs, ssa.NaiveForm|ssa.InstantiateGenerics)
 	g := &Gen{u: newUniverse(), contracts: contracts, prog: prog, pkgs: map[string]*ssa.Package{},
 		notes: map[string]bool{}, unmodelled: map[string]bool{}, specFuncs: map[*FuncSpec]*ssa.Function{},
-		heapSorts: map[string]Sort{}, heapRange: map[string][2]string{}}
+		heapSorts: map[string]Sort{}, heapRange: map[string][2]string{}, aliases: map[string]map[string]string{}, heapCell: map[string]types.Type{}}
 	for _, p := range pkgs {
 		sp := prog.Package(p.Types)
 		sp.Build()
 		g.pkgs[p.PkgPath] = sp
+		g.aliases[p.PkgPath] = map[string]string{}
+		for _, f := range p.Syntax {
+			for _, is := range f.Imports {
+				if is.Name != nil && is.Name.Name != "_" && is.Name.Name != "." {
+					g.aliases[p.PkgPath][is.Name.Name] = strings.Trim(is.Path.Value, "\"")
+				}
+			}
+		}
 	}
 	loadS := time.Since(start).Seconds()
 	if o.prop == "WARMUP" {
